@@ -1,6 +1,11 @@
 package refstore
 
-import "sync"
+import (
+	"sync"
+	"time"
+
+	"github.com/zitadel/oidc/v3/pkg/op"
+)
 
 // C07: storages may hand the framework the LIVE stored grant as op.RefreshTokenRequest
 // (example/server/storage does: RefreshTokenRequest wraps the stored *RefreshToken and
@@ -16,4 +21,30 @@ func (s *Store) SetLiveRefreshGrants(on bool) { liveRefresh.Store(s, on) }
 func (s *Store) extLiveRefresh() bool {
 	v, ok := liveRefresh.Load(s)
 	return ok && v.(bool)
+}
+
+// C07: a storage need not rotate refresh tokens. With SetKeepRefreshTokens(true)
+// CreateAccessAndRefreshTokens(request, current) hands the PRESENTED refresh token back as the
+// valid one (long-lived / sliding refresh tokens): the stored token keeps its id and now stands
+// for the request's current (possibly narrowed) scopes, its previous access token is dropped
+// and a new access token is created. Legal for op.Storage; the framework must put the refresh
+// token the storage returned into the response whatever its value. Default-preserving: without
+// the call the storage rotates as before.
+var keepRefresh sync.Map // *Store -> bool
+
+func (s *Store) SetKeepRefreshTokens(on bool) { keepRefresh.Store(s, on) }
+
+func (s *Store) extKeepRefresh() bool {
+	v, ok := keepRefresh.Load(s)
+	return ok && v.(bool)
+}
+
+// extKeepSame is called with s.mu held.
+func (s *Store) extKeepSame(old *RefreshToken, request op.TokenRequest) (string, string, time.Time, error) {
+	clientID, _, _, actor := requestClient(request)
+	delete(s.Tokens, old.AccessToken)
+	t := s.newAccessToken(clientID, old.ID, request.GetSubject(), actor, request.GetAudience(), request.GetScopes())
+	old.Scopes = request.GetScopes()
+	old.AccessToken = t.ID
+	return t.ID, old.ID, t.Expiration, nil
 }
